@@ -402,6 +402,8 @@ class Engine:
         self.path_log = []
         if hasattr(self, 'mod_memo'):
             self.mod_memo = {}
+        for h in getattr(self, 'path_reset_hooks', []):
+            h(self)
 
     def fresh_bv(self, name, w):
         self.nsym += 1
